@@ -35,8 +35,12 @@ enum Dst {
     RaxZero,
     /// rax = value sign-extended from 32 bits
     RaxSign32,
+    /// rip = value (RSP points into an area, so the push of a call can succeed)
+    Rip,
+    /// the loaded value ends up on the stack: only acceptance and "a failing load changes nothing"
+    Unchecked,
 }
-const G_LOADX: [(&str, u64, u64, &[u8], Dst); 8] = [
+const G_LOADX: [(&str, u64, u64, &[u8], Dst); 13] = [
     ("movd", 4, 0x80, &[0x66, 0x0F, 0x6E, 0x03], Dst::Xmm),             // movd xmm0,[rbx]
     ("movq", 8, 0x88, &[0x66, 0x48, 0x0F, 0x6E, 0x03], Dst::Xmm),       // movq xmm0,[rbx]
     ("movups", 16, 0x90, &[0x0F, 0x10, 0x03], Dst::Xmm),                // movups xmm0,[rbx]
@@ -45,6 +49,12 @@ const G_LOADX: [(&str, u64, u64, &[u8], Dst); 8] = [
     ("movzx64-16", 2, 0xA8, &[0x48, 0x0F, 0xB7, 0x03], Dst::RaxZero),   // movzx rax,word [rbx]
     ("movsxd", 4, 0xB0, &[0x48, 0x63, 0x03], Dst::RaxSign32),           // movsxd rax,dword [rbx]
     ("add-load32", 4, 0xB8, &[0x31, 0xC0, 0x03, 0x03], Dst::RaxZero),   // xor eax,eax ; add eax,[rbx]
+    ("call-mem", 8, 0xC0, &[0xFF, 0x13], Dst::Rip),                      // call [rbx]
+    ("jmp-mem", 8, 0xC8, &[0xFF, 0x23], Dst::Rip),                       // jmp [rbx]
+    ("push-mem", 8, 0xD0, &[0xFF, 0x33], Dst::Unchecked),                // push [rbx]
+    // conditional moves load their source whatever the condition says
+    ("cmove-taken", 8, 0xD8, &[0x31, 0xC0, 0x48, 0x0F, 0x44, 0x03], Dst::RaxZero),      // xor eax,eax ; cmove rax,[rbx]
+    ("cmovne-untaken", 8, 0xE0, &[0x31, 0xC0, 0x48, 0x0F, 0x45, 0x03], Dst::Unchecked), // xor eax,eax ; cmovne rax,[rbx]
 ];
 
 /// One lazily-faulted, read-only, MAP_NORESERVE zero mapping of 2^40 bytes: valid memory that a
@@ -290,8 +300,11 @@ impl C08 {
                     g.reg_write_64(SR::RAX, 0x1111_2222_3333_4444).unwrap();
                     g.reg_write_128(crate::emu::XMM[0], 0x5555_6666_7777_8888_9999_AAAA_BBBB_CCCCu128).unwrap();
                     g.reg_write_64(SR::RIP, CODE_AT + off).unwrap();
+                    // a stack inside the first non-empty area, one slot free on either side
+                    let sp = m.areas.iter().find(|(_, l)| *l >= 0x20).map(|(s, _)| s.wrapping_add(0x10)).unwrap_or(0);
+                    g.reg_write_64(SR::RSP, sp).unwrap();
                     let mut so = crate::emu::step(&mut g);
-                    if code.len() == 4 && code[0] == 0x31 {
+                    if code.len() >= 4 && code[0] == 0x31 {
                         // two-instruction probe: the load is the second instruction
                         if let StepOut::Ok(_) = so {
                             so = crate::emu::step(&mut g);
@@ -308,6 +321,8 @@ impl C08 {
                                 Dst::Xmm => (g.reg_read_128(crate::emu::XMM[0]).unwrap(), want),
                                 Dst::RaxZero => (g.reg_read_64(SR::RAX).unwrap() as u128, want),
                                 Dst::RaxSign32 => (g.reg_read_64(SR::RAX).unwrap() as u128, want as u32 as i32 as i64 as u64 as u128),
+                                Dst::Rip => (g.reg_read_64(SR::RIP).unwrap() as u128, want),
+                                Dst::Unchecked => (0, 0),
                             };
                             if got != want {
                                 { soft_push(out, div(format!("guest-{name}|wrong-value"), format!("{after}: {name} load at {addr:#x} = {got:#x}, the bytes give {want:#x}"))); }
@@ -323,6 +338,10 @@ impl C08 {
                         (None, StepOut::Err(_)) => {
                             if area_fp(&g) != before {
                                 { soft_push(out, div(format!("guest-{name}|state-changed-on-reject"), format!("{after}: failing {name} load at {addr:#x} changed memory"))); }
+                            }
+                            let sp_now = g.reg_read_64(SR::RSP).unwrap();
+                            if sp_now != sp {
+                                { soft_push(out, div(format!("guest-{name}|rsp-changed-on-reject"), format!("{after}: failing {name} load at {addr:#x} moved RSP from {sp:#x} to {sp_now:#x}"))); }
                             }
                         }
                     }
